@@ -3,7 +3,7 @@
 // thread and compares what the scripted coroutines observe with the specification's history.
 //
 // A scenario is one maximal path of the specification's state graph = one complete program:
-//     BEGIN <id> {"swap":bool}
+//     BEGIN <id> {"swap":bool,"pool":bool}
 //     Run\t{"errors":[],"ev":[...],"final":{...},"script":{"0":[[kind,arg]...],"1":...}}
 //     END
 // The replayer reads the scripts out of the expected projection (the specification chose them step by
@@ -18,13 +18,30 @@
 //   errors checks made on the C++ side only (two coroutines running at once, frame destroyed twice,
 //          script overrun ...): expected to be empty
 // header "swap": co_await pause() is replaced by an awaiter built on coro_queue::swap_coroutine.
+//
+// The 5th field of an event is the MODE: (1 iff coro_queue::is_active()) + (2 iff the event is logged on the thread
+// pool's worker thread).  Programs with pool steps (po pr pw px) run a real cocls::thread_pool with ONE worker.  The
+// native driver keeps the two threads from ever executing at the same time: before a native step it parks the worker
+// in a "gate" closure, performs the step on the native thread (closures the library hands to the pool pile up behind
+// the gate), queues an observation closure, opens the gate and blocks until that closure (event "w", logged ON the
+// worker: its deque must be empty and coroutine mode off) reports the pool dry.  The history is therefore
+// sequential and deterministic although two real threads (and two thread-local ready queues) are involved.
+//
+// -DCOROSCHED_NO_PRIVATE: fallback build that does not look at the representation of the ready deque
+// (coro_queue::queue_impl::_queue) nor at async<>::_h: deque snapshots are reported as empty (the driver blanks them
+// in the expectation as well) and the comparison rests on the event history, coroutine mode and the counters alone.
 #include <cocls/async.h>
 #include <cocls/future.h>
 #include <cocls/mutex.h>
 #include <cocls/queue.h>
 #include "replay_common.h"
 
+#include <cocls/thread_pool.h>
+
+#include <condition_variable>
 #include <deque>
+#include <mutex>
+#include <thread>
 
 using namespace rp;
 
@@ -45,9 +62,11 @@ struct Tok {
     ~Tok();
 };
 
+#ifndef COROSCHED_NO_PRIVATE
 struct AProbe : cocls::async<void> {
     static std::coroutine_handle<> handle(cocls::async<void> &a) { return a.*(&AProbe::_h); }
 };
+#endif
 
 cocls::async<void> body(World &w, int me, Tok tok);
 
@@ -63,6 +82,12 @@ struct World {
     cocls::mutex mx;
     cocls::queue<void> q;
     std::deque<std::coroutine_handle<>> parked;
+    std::thread::id native_thread = std::this_thread::get_id();
+    // gate that parks the pool's worker while the native thread executes a step
+    std::mutex gate_mx;
+    std::condition_variable gate_cv;
+    bool gate_open = false;
+    bool pool_dry = false;
 
     std::map<void *, int> ids;     // coroutine frame address -> coroutine id
     int created = 0;
@@ -75,13 +100,22 @@ struct World {
         if (errors.size() < 8) errors.push_back(s);
     }
 
+    // the EXECUTING thread's ready deque (thread_local)
     static J deque_ids(World &w) {
         J l = J::list();
+#ifndef COROSCHED_NO_PRIVATE
         for (auto h : cocls::coro_queue::queue_impl::instance._queue) {
             auto it = w.ids.find(h.address());
             l.push(it == w.ids.end() ? -1 : it->second);
         }
+#else
+        (void) w;
+#endif
         return l;
+    }
+
+    int mode() const {
+        return (cocls::coro_queue::is_active() ? 1 : 0) + (std::this_thread::get_id() != native_thread ? 2 : 0);
     }
 
     void log(int c, int i, const char *kind) {
@@ -92,7 +126,7 @@ struct World {
             std::abort();
         }
         J e = J::list();
-        e.push(c).push(i).push(kind).push(deque_ids(*this)).push(cocls::coro_queue::is_active() ? 1 : 0);
+        e.push(c).push(i).push(kind).push(deque_ids(*this)).push(mode());
         ev.push(std::move(e));
         if (c == 0) return;
         char k = kind[0];
@@ -127,9 +161,14 @@ struct World {
             child = created = N;
         }
         cocls::async<void> a = body(*this, child, Tok(this, child));
+#ifndef COROSCHED_NO_PRIVATE
         ids[AProbe::handle(a).address()] = child;
+#endif
         return a;
     }
+
+    // declared last: destroyed first (stop() joins the worker before anything it may still touch goes away)
+    std::unique_ptr<cocls::thread_pool> pool;
 
     bool all_done() const {
         for (int c = 1; c <= created; c++) {
@@ -166,6 +205,21 @@ struct Obs {
     decltype(auto) await_resume() { return inner.await_resume(); }
 };
 
+// the same around an awaitable VARIABLE (awaited in place, not moved)
+template <typename A>
+struct ObsRef {
+    World &w;
+    int me;
+    int i;
+    A &inner;
+    bool await_ready() { return inner.await_ready(); }
+    auto await_suspend(std::coroutine_handle<> h) {
+        w.log(me, i, "s");
+        return inner.await_suspend(h);
+    }
+    decltype(auto) await_resume() { return inner.await_resume(); }
+};
+
 // stand-in for an external event source: keeps the handle until somebody calls coro_queue::resume
 struct ParkAw {
     World &w;
@@ -194,7 +248,8 @@ using FutAw = cocls::co_awaiter<cocls::future<void>>;
 
 cocls::async<void> body(World &w, int me, Tok tok) {
     Fin fin{w, me};                    // destroyed last: logs "f"
-    cocls::mutex::ownership own;       // destroyed first: releases the mutex if still held
+    cocls::mutex::ownership own;       // destroyed second: releases the mutex if still held
+    cocls::suspend_point<void> acc;    // destroyed first: the reused suspend point variable flushes what it holds
     for (int i = 1;; i++) {
         if ((std::size_t) i > w.script[me].size()) {
             w.err("coroutine " + std::to_string(me) + " ran past the end of its script");
@@ -274,6 +329,33 @@ cocls::async<void> body(World &w, int me, Tok tok) {
         } else if (k == "qa") {
             { Obs<SPb> o(w, me, i, [&] { return w.q.push(); }); co_await o; }
             w.log(me, i, "e");
+        } else if (k == "po") {
+            { Obs<cocls::thread_pool::co_awaiter> o(w, me, i, [&] { return w.pool->operator co_await(); }); co_await o; }
+            w.log(me, i, "e");
+        } else if (k == "pr") {
+            w.pool->resume(w.prom[a]());
+        } else if (k == "pw") {
+            { Obs<decltype((*w.pool)(*w.fut[a]))> o(w, me, i, [&] { return (*w.pool)(*w.fut[a]); }); co_await o; }
+            w.log(me, i, "e");
+        } else if (k == "px") {
+            int child;
+            cocls::async<void> c = w.make(child);
+            cocls::future<void> f = w.pool->run(c);
+            { Obs<FutAw> o(w, me, i, [&] { return f.operator co_await(); }); co_await o; }
+            w.log(me, i, "e");
+        } else if (k == "ha") {
+            acc = w.prom[a]();
+        } else if (k == "hm") {
+            acc << w.prom[a]();
+        } else if (k == "hd") {
+            int child;
+            cocls::async<void> c = w.make(child);
+            acc = c.detach();
+        } else if (k == "hw") {
+            { ObsRef<SPv> o{w, me, i, acc}; co_await o; }
+            w.log(me, i, "e");
+        } else if (k == "hf") {
+            acc.clear();
         } else if (k == "re") {
             co_return;
         } else {
@@ -283,10 +365,38 @@ cocls::async<void> body(World &w, int me, Tok tok) {
     }
 }
 
+// runs ON the worker between the library's closures: observes the worker's own ready deque / coroutine mode; if
+// closures were queued behind it in the meantime it queues itself again (from the worker, so the order is fixed),
+// otherwise the pool is dry and the native thread may continue
+struct ObsTask {
+    World *w;
+    int i;
+    void operator()() {
+        w->log(0, i, "w");
+        if (w->pool->any_enqueued()) {
+            w->pool->run_detached(ObsTask{w, i});
+        } else {
+            {
+                std::lock_guard lk(w->gate_mx);
+                w->pool_dry = true;
+            }
+            w->gate_cv.notify_all();
+        }
+    }
+};
+
 static void native_driver(World &w) {
     for (std::size_t j = 0; j < w.script[0].size(); j++) {
         const StepD &s = w.script[0][j];
         int i = (int) j + 1;
+        if (w.pool) {
+            // park the worker: whatever this step hands to the pool waits behind the gate
+            w.gate_open = false;
+            w.pool->run_detached([&w] {
+                std::unique_lock lk(w.gate_mx);
+                w.gate_cv.wait(lk, [&w] { return w.gate_open; });
+            });
+        }
         w.log(0, i, "b");
         if (s.k == "sd") {
             int child;
@@ -294,6 +404,8 @@ static void native_driver(World &w) {
             c.detach();
         } else if (s.k == "rd") {
             w.prom[s.a]();
+        } else if (s.k == "pr") {
+            w.pool->resume(w.prom[s.a]());
         } else if (s.k == "up") {
             if (!w.parked.empty()) {
                 auto h = w.parked.front();
@@ -304,6 +416,19 @@ static void native_driver(World &w) {
             w.q.push();
         } else {
             w.err("unknown native step kind " + s.k);
+        }
+        if (w.pool) {
+            // the observation closure is queued BEHIND everything this step handed to the pool, and only then the
+            // gate is opened: from here on the worker runs and this thread only waits until the pool is dry
+            w.pool_dry = false;
+            w.pool->run_detached(ObsTask{&w, i});
+            {
+                std::lock_guard lk(w.gate_mx);
+                w.gate_open = true;
+            }
+            w.gate_cv.notify_all();
+            std::unique_lock lk(w.gate_mx);
+            w.gate_cv.wait(lk, [&w] { return w.pool_dry; });
         }
         w.log(0, i, "e");
     }
@@ -321,6 +446,7 @@ static void run_scenario(const Scenario &sc, Reporter &rep) {
     w->use_swap = sc.hdr.at("swap").as_bool(false);
     w->script.resize(w->N + 1);
     int maxk = 0;
+    bool use_pool = sc.hdr.at("pool").as_bool(false);   // the specification's configuration has a thread pool
     J jscript = J::map();
     for (int c = 0; c <= w->N; c++) {
         const JV &l = scr.at(std::to_string(c));
@@ -329,7 +455,9 @@ static void run_scenario(const Scenario &sc, Reporter &rep) {
             StepD d;
             d.k = st.l[0].s;
             d.a = (int) st.l[1].i;
-            if (d.k == "rd" || d.k == "ra" || d.k == "aw" || d.k == "bd" || d.k == "ba") maxk = std::max(maxk, d.a);
+            if (d.k == "rd" || d.k == "ra" || d.k == "aw" || d.k == "bd" || d.k == "ba" || d.k == "pr" || d.k == "pw" ||
+                d.k == "ha" || d.k == "hm") maxk = std::max(maxk, d.a);
+            if (d.k == "po" || d.k == "pr" || d.k == "pw" || d.k == "px") use_pool = true;   // (artefacts without the flag)
             w->script[c].push_back(d);
             jl.push(J::list().push(d.k).push(d.a));
         }
@@ -343,6 +471,8 @@ static void run_scenario(const Scenario &sc, Reporter &rep) {
     }
     for (auto *v : {&w->running, &w->finished, &w->destroyed, &w->resumes, &w->suspended, &w->incall}) v->assign(w->N + 1, 0);
 
+    if (use_pool) w->pool.reset(new cocls::thread_pool(1));
+
     native_driver(*w);
 
     J got = J::map();
@@ -351,6 +481,7 @@ static void run_scenario(const Scenario &sc, Reporter &rep) {
     J fin = J::map();
     fin.set("queue", World::deque_ids(*w));
     fin.set("inst", cocls::coro_queue::is_active() ? 1 : 0);
+    if (w->pool && w->pool->any_enqueued()) w->err("closures left in the thread pool");
     J nrs = J::list(), st = J::list();
     for (int c = 1; c <= w->N; c++) {
         nrs.push(w->resumes[c]);
@@ -369,9 +500,13 @@ static void run_scenario(const Scenario &sc, Reporter &rep) {
     got.set("errors", errs);
 
     // leave the thread clean for the next scenario whatever happened
+#ifndef COROSCHED_NO_PRIVATE
     bool clean = w->all_done() && !cocls::coro_queue::is_active() && cocls::coro_queue::queue_impl::instance._queue.empty();
     cocls::coro_queue::instance = nullptr;
     cocls::coro_queue::queue_impl::instance._queue.clear();
+#else
+    bool clean = w->all_done() && !cocls::coro_queue::is_active();
+#endif
 
     rep.check(0, got);
     if (clean) delete w;
